@@ -342,6 +342,7 @@ def run_check(pid, tier, seed, replay=None):
     kernel_cases = []
     violations = []
     known_hit = {}
+    known_clauses = {}
     agg_stats = {}
     for r in results:
         st = r.get('status')
@@ -392,6 +393,9 @@ def run_check(pid, tier, seed, replay=None):
             f = r.get('finding')
             if f:
                 known_hit[f] = known_hit.get(f, 0) + 1
+                kc_ = known_clauses.setdefault(f, {})
+                ck = str(v[2]) if v[0] == 'R' else 'exception'
+                kc_[ck] = kc_.get(ck, 0) + 1
                 if os.environ.get('VERIF_SAVE_KNOWN'):
                     cp = os.path.join(VERIF, 'corpus', pid, '%s.json' % f.lower().replace('-', ''))
                     if not os.path.exists(cp):
@@ -401,6 +405,11 @@ def run_check(pid, tier, seed, replay=None):
                 violations.append({'kind': 'rejected' if v[0] != 'A' else 'exception', 'cfg': r['cfg'], 'verdict': v, 'exc': r.get('exc'),
                                    'detail': r.get('detail'),
                                    'clause': prop.clause_text.get(v[2]) if v[0] == 'R' else None})
+    # findings a custom job reproduced by replaying a recorded witness (only ids listed as open for this property count)
+    for r in results:
+        for f, cnt in (r.get('known') or {}).items():
+            if f in findings.open_ids(pid):
+                known_hit[f] = known_hit.get(f, 0) + cnt
     kc = kernel_crosscheck(prop, kernel_cases) if pr['ok'] or os.path.exists(DRIVER) else {'cases': 0, 'agree': 0}
     if kc.get('cases') and kc.get('agree') != kc.get('cases'):
         violations.append({'kind': 'kernel_extraction_disagree', 'detail': kc})
@@ -444,7 +453,7 @@ def run_check(pid, tier, seed, replay=None):
                 'theorems': pr.get('theorems', []),
                 'checker_cmd': pr.get('checker_cmd', ''), 'trusted_base': TRUSTED_BASE,
                 'axioms_reported_by_Print_Assumptions': pr.get('axioms', []),
-                'kernel_crosscheck': kc, 'known_findings_hit': known_hit, 'mechanism_stats': agg_stats,
+                'kernel_crosscheck': kc, 'known_findings_hit': known_hit, 'known_findings_clauses': known_clauses, 'mechanism_stats': agg_stats,
                 'proof_log': pr['log'], 'mechanism_divergences': cov_soft, 'violations_detail': [{k: v for k, v in x.items() if k != 'cfg'} for x in violations[:3]]})
     if 'coqchk' in pr:
         cov['coqchk'] = pr['coqchk']
